@@ -80,7 +80,7 @@ func genRegStep(r *Rng, npool int) Step {
 
 func (engC17) Gen(r *Rng, s *Script, idx int, tier string) {
 	nt := r.Pick([]int{2, 4, 4, 3, 2}) + 1
-	npool := r.Range(1, 4)
+	npool := r.Range(1, 6)
 	s.Config["tasks"] = nt
 	s.Config["pool"] = npool
 	if r.Chance(1, 4) {
